@@ -47,6 +47,11 @@ func (f *fetcher) Chains(context.Context, trust.ChainQuery, net.Addr) ([][]*x509
 
 func (f *fetcher) TRC(_ context.Context, id cppki.TRCID, _ net.Addr) (cppki.SignedTRC, error) {
 	raw, kind, good := f.answer(id)
+	if kind == "crash" {
+		// the process dies while waiting for the reply: unwinds to the simulator, which then restarts the AS
+		f.calls = append(f.calls, fetchCall{id, kind, false})
+		panic(crashNow{})
+	}
 	if raw == nil {
 		f.calls = append(f.calls, fetchCall{id, kind, false})
 		return cppki.SignedTRC{}, serrors.New("simulated transport: fetch failed")
@@ -162,9 +167,20 @@ func (n *node) latest(isd int) (cppki.SignedTRC, bool) {
 	return t, !t.IsZero()
 }
 
-func (n *node) notify(id cppki.TRCID) error {
+// crashNow is panicked by the fetch seam to model the process dying in the middle of a catch-up.
+type crashNow struct{}
+
+func (n *node) notify(id cppki.TRCID) (err error, crashed bool) {
 	n.f.calls = nil
-	return n.prov.NotifyTRC(context.Background(), id)
+	defer func() {
+		if x := recover(); x != nil {
+			if _, ok := x.(crashNow); !ok {
+				panic(x)
+			}
+			err, crashed = nil, true
+		}
+	}()
+	return n.prov.NotifyTRC(context.Background(), id), false
 }
 
 // insertAnchor provisions a trust anchor directly.
